@@ -289,6 +289,9 @@ def gc_items(seed, tier):
     items = fams("gc", "sequences", "calls") + [x for x in fams("boundary", "builtins", "compose")]
     items += [x for x in sk.fam_loop_bodies(2 if tier == "quick" else 3, contexts=("fn",))]
     items += rnd(seed, 40 if tier == "quick" else 400)
+    # retained sessions whose lines keep heap values in globals across failing lines / results / collections
+    items += [x for x in sk.fam_sessions_directed() if any(k in x[0] for k in ("heap", "result-then", "string-result", "nested-result", "constant-reuse"))]
+    items += [x for x in sk.fam_sessions(3, names=("array", "usearray", "text", "usetext", "fail-in-fn", "fn")) ]
     return items
 
 
@@ -306,9 +309,9 @@ GC_ASSUME = ["what the solver decides here: (1) Kani contracts on the real VM::r
 PROPS = {
     "C15": run_C15,
     "C03": s_property("C03", "translation_validation", lambda seed: gc_items(seed, "quick"), lambda seed: gc_items(seed, "thorough"), k=True,
-                      kinds=("witness", "ledger", "unsafe"), extra_assume=GC_ASSUME),
+                      kinds=("witness", "ledger", "unsafe", "session"), extra_assume=GC_ASSUME),
     "C04": s_property("C04", "translation_validation", lambda seed: gc_items(seed, "quick"), lambda seed: gc_items(seed, "thorough"), k=True,
-                      kinds=("ledger", "witness"), extra_assume=GC_ASSUME),
+                      kinds=("ledger", "witness", "session"), extra_assume=GC_ASSUME),
     "C08": run_C08,
     "C01": s_property("C01", "translation_validation",
                       lambda seed: fams("compose", "control", "calls", "scoping", "sequences", "builtins", "boundary", "gc", "undeclared") + op_forms_light() + exh(2) + loops(2) + rnd(seed, 60),
